@@ -198,17 +198,39 @@ theorem api_reads_snapshot {store : Loc → Nat} {paths : Nat → List Ev} (h : 
 
 /-! ## Non-vacuity -/
 
-/-- a concrete run of the reader program through the generated IR: one `pfx_table_validate_r`
-    that reads the root and a node inside its read section -/
-example : ∃ π, Runs readerProg π ∧ π.head? = some (.acq .R 0) ∧ Ev.rd ⟨0, .nodes⟩ ∈ π ∧ π.getLast? = some (.rel 0) := by
-  refine ⟨_, ⟨.norm, runPath_sound 200 readerProg
-    [true, true, true, true, false, false, true, true, false, true] _ _ _ rfl, by decide⟩, ?_⟩
-  decide
+/-- all resolutions of the first `n` branch points -/
+def choiceSeqs : Nat → List (List Bool)
+  | 0 => [[]]
+  | n + 1 => (choiceSeqs n).flatMap fun cs => [true :: cs, false :: cs]
 
-/-- a concrete run of the writer program: `pfx_table_add` into an empty tree -/
+/-- does some resolution of the first `n` branch points give a complete run whose events satisfy `good`?
+    (a search instead of a hard-wired branch list: the generated IR changes shape with every refactoring of the C code) -/
+def hasRun (p : Prog) (n : Nat) (good : List Ev → Bool) : Bool :=
+  (choiceSeqs n).any fun cs =>
+    match runPath fns 200 p cs with
+    | some (π, .norm, _) => good π
+    | _ => false
+
+theorem hasRun_sound {p : Prog} {n : Nat} {good : List Ev → Bool} (h : hasRun p n good = true) :
+    ∃ π, Runs p π ∧ good π = true := by
+  unfold hasRun at h
+  obtain ⟨cs, _, hc⟩ := List.any_eq_true.1 h
+  split at hc
+  · rename_i π _ heq
+    exact ⟨π, ⟨.norm, runPath_sound 200 p cs π .norm _ heq, by decide⟩, hc⟩
+  · exact absurd hc (by decide)
+
+/-- a concrete run of the reader program through the generated IR: it starts by taking a read lock, reads
+    trie nodes inside the read section and ends by releasing the lock -/
+example : ∃ π, Runs readerProg π ∧ π.head? = some (.acq .R 0) ∧ Ev.rd ⟨0, .nodes⟩ ∈ π ∧ π.getLast? = some (.rel 0) := by
+  obtain ⟨π, h1, h2⟩ := hasRun_sound (p := readerProg) (n := 10)
+    (good := fun π => decide (π.head? = some (.acq .R 0) ∧ Ev.rd ⟨0, .nodes⟩ ∈ π ∧ π.getLast? = some (.rel 0))) (by decide +kernel)
+  exact ⟨π, h1, of_decide_eq_true h2⟩
+
+/-- a concrete run of the writer program: some path of `pfx_table_add` assigns the IPv4 root -/
 example : ∃ π, Runs writerProg π ∧ Ev.wr ⟨0, .ipv4⟩ 0 ∈ π := by
-  refine ⟨_, ⟨.norm, runPath_sound 200 writerProg [true, true, false, false, false, true, false] _ _ _ rfl, by decide⟩, ?_⟩
-  decide
+  obtain ⟨π, h1, h2⟩ := hasRun_sound (p := writerProg) (n := 9) (good := fun π => decide (Ev.wr ⟨0, .ipv4⟩ 0 ∈ π)) (by decide +kernel)
+  exact ⟨π, h1, of_decide_eq_true h2⟩
 
 /-- hypotheses of `guarded_no_race` are satisfiable with real contention: a writer and a reader
     on the same location; the reader gets in first, the writer is then blocked (not racing) -/
